@@ -45,7 +45,9 @@ PROPS["C16"] = dict(
 
 # ------------------------------------------------------------------------------------------- C03
 EX = "execution::verif_kani"
-_EVAL_STUBS = ["regex::Regex::new -> Err (regex engine is environment; Ok path of regexp_matches outside the claim)",
+_EVAL_STUBS = ["<Value as Clone>::clone -> scalar-only clone (arrays excluded by assumption; the subscript harnesses use a one-level array clone): the derived clone itself is not what these harnesses decide, and CBMC walks its recursive Array arm on every call",
+               "<Value as Display>::fmt -> writes nothing", "chrono::NaiveDateTime::parse_from_str -> arbitrary Ok | Err",
+               "regex::Regex::new -> Err (regex engine is environment; Ok path of regexp_matches outside the claim)",
                "chrono::Local::now -> arbitrary instant", "<Local as TimeZone>::offset_from_local_datetime -> arbitrary None|Single|Ambiguous",
                "<Local as TimeZone>::offset_from_utc_datetime -> arbitrary offset", "alloc::fmt::format -> empty string (error texts are not the subject)"]
 
@@ -60,7 +62,7 @@ _c03_quick = set(_names("c03_arith_", ["add_int_int", "sub_int_int", "add_float_
                  _names("c03_bool_", ["bool_bool", "bool_null"]) +
                  ["c03_unary_neg_int", "c03_unary_bool", "c03_unary_null"] +
                  _names("c03_in_", ["int_int", "null_int", "int_null"]) +
-                 ["c03_fn_abs_int"])
+                 ["c03_fn_abs_int", "c03_subscript_len1"])
 
 _c03_all = (_names("c03_arith_", ["add_int_int", "sub_int_int", "mul_int_int", "div_int_int", "add_float_float", "sub_float_float", "mul_float_float", "div_float_float",
                                   "null_null", "null_int", "int_null", "null_float", "float_null", "null_string", "bool_null", "null_timestamp", "interval_null",
@@ -70,10 +72,11 @@ _c03_all = (_names("c03_arith_", ["add_int_int", "sub_int_int", "mul_int_int", "
             _names("c03_bool_", ["bool_bool", "bool_null", "null_bool", "null_null", "int_bool", "bool_string"]) +
             ["c03_unary_neg_int"] + _names("c03_unary_", ["null", "float", "bool", "string", "int", "interval"]) +
             _names("c03_in_", ["int_int", "null_int", "int_null", "null_null", "float_float", "string_string", "bool_bool"]) +
+            _names("c03_subscript_", ["len0", "len1", "int_int", "null_int", "string_int", "array_null", "array_float", "array_string"]) +
             _names("c03_fn_", ["abs_int", "abs_other", "wrong_arity_or_type"]) +
             ["c03_cast_interval"])
 
-_C03_COST = {"c03_cmp_int_null_gt_le": 400, "c03_arith_div_int_int": 400, "c03_arith_mul_int_int": 400, "c03_arith_add_float_float": 160, "c03_arith_sub_float_float": 160,
+_C03_COST = {"c03_cmp_int_null_gt_le": 400, "c03_subscript_len1": 350, "c03_subscript_len0": 300, "c03_arith_div_int_int": 400, "c03_arith_mul_int_int": 400, "c03_arith_add_float_float": 160, "c03_arith_sub_float_float": 160,
              "c03_arith_mul_float_float": 300, "c03_arith_div_float_float": 400, "c03_fn_abs_int": 120}
 
 PROPS["C03"] = dict(
@@ -92,31 +95,37 @@ PROPS["C03"] = dict(
              "regexp_matches, upper/lower, array_unique (BTreeSet), sqrt/pow on REAL (CBMC's float transcendental models are not bit-precise), EXTRACT / date_trunc (chrono calendar code)",
              "timestamp <-> string coercion in comparisons (chrono's format parser)", "functions of two or more arguments (greatest, least, pow, array_cat/append/prepend, make_timestamp): the argument loop needs a second iteration",
              "IN lists with two or more entries, strings longer than 1 byte",
-             "CASE, array subscripts, array_length, casts other than INTERVAL::int and timestamp comparisons: their harnesses (kept in /verif/kani/execution.rs: c03_case_*, c03_subscript_*, c03_cast_identity_and_mismatch, c03_cmp_timestamp_*) exhaust 14 GB / 15 min in CBMC and are not registered"],
+             "arrays longer than 1 element in subscripts (one-level array clone stub, unwind 2)",
+             "CASE, array_length, casts other than INTERVAL::int and timestamp comparisons: their harnesses (kept in /verif/kani/execution.rs: c03_case_*, c03_fn_array_length, c03_cast_identity_and_mismatch, c03_cmp_timestamp_*) exhaust memory / 15 min in CBMC and are not registered"],
 )
 
 # ------------------------------------------------------------------------------------- C04 / C15
 AG = "execution::aggregate_execution::verif_kani"
-_fold = [("c04_fold_sum_int", "SUM over 3 INT-or-NULL values", "quick"), ("c04_fold_sum_float", "SUM over 3 REAL-or-NULL values", "thorough"),
-         ("c04_fold_avg_int", "AVG over 3 INT-or-NULL values", "quick"), ("c04_fold_avg_float", "AVG over 3 REAL-or-NULL values", "thorough"),
-         ("c04_fold_variance_int", "VARIANCE over 3 INT-or-NULL values", "quick"), ("c04_fold_variance_float", "VARIANCE over 3 REAL-or-NULL values", "thorough"),
-         ("c04_fold_bool_and", "BOOL_AND over 3 BOOL-or-NULL values", "quick"), ("c04_fold_bool_or", "BOOL_OR over 3 BOOL-or-NULL values", "quick"),
-         ("c04_fold_percentile_n1", "PERCENTILE(p) over 1 INT", "quick"), ("c04_fold_percentile_n2", "PERCENTILE(p) over 2 INTs", "quick"),
-         ("c04_fold_percentile_n3", "PERCENTILE(p) over 3 INTs + permutation", "quick"), ("c04_fold_percentile_all_null", "PERCENTILE over an all-NULL group", "quick")]
+_fold = []
+for _k, _label in [("sum_int", "SUM over INT"), ("sum_float", "SUM over REAL"), ("avg_int", "AVG over INT"), ("avg_float", "AVG over REAL")]:
+    for _pat, _pl in [("vvv", "no NULL"), ("nvv", "NULL arrives first"), ("vnv", "NULL in the middle"), ("nnn", "all NULL")]:
+        _quick = _k.endswith("_int") and _pat in ("vvv", "nvv")
+        _fold.append(("c04_fold_%s_%s" % (_k, _pat), "%s, 3 rows, %s" % (_label, _pl), "quick" if _quick else "thorough"))
+for _k in ["bool_and", "bool_or"]:
+    for _pat, _pl in [("vvv", "no NULL"), ("nvv", "NULL arrives first"), ("nnn", "all NULL")]:
+        _fold.append(("c04_fold_%s_%s" % (_k, _pat), "%s, 3 rows, %s" % (_k.upper(), _pl), "quick" if _pat == "nvv" else "thorough"))
+_fold += [("c04_fold_percentile_n1", "PERCENTILE(p) over 1 INT, every p in [0,1]", "quick"), ("c04_fold_percentile_all_null", "PERCENTILE over an all-NULL group", "quick")]
+_C15_QUICK = ("c04_fold_sum_int_nvv", "c04_fold_avg_int_vvv", "c04_fold_bool_and_nvv")
 _FOLD_FUNCS = ["GroupAggregator::default / update / update_value / is_null (src/execution/aggregate_execution.rs)",
                "Value::modify_same_type_numeric_nullable, Value::map_numeric, Value::default_value (src/model.rs)", "slice sort of Vec<Value> (PERCENTILE)"]
-_FOLD_BOUNDS = {"group": "3 rows, each NULL or a value (NULL pattern symbolic)", "INT / REAL values": "integers with |x| <= 2^20 (every sum and square exact in i64 and f64); overflow harnesses: full i64",
-                "percentile p": "every f64 in [0, 1]", "orders": "all 6 permutations of the 3 rows (symbolic permutation index)", "unwind": "5-6"}
+_FOLD_BOUNDS = {"group": "3 rows; NULL pattern concrete per harness (no NULL / NULL first / NULL in the middle / all NULL), values symbolic", "INT / REAL values": "integers with |x| <= 2^20 (every sum and square exact in i64 and f64); overflow harnesses: full i64",
+                "percentile p": "every f64 in [0, 1]", "orders": "arrival order as given, reversed and rotated", "unwind": "2 (PERCENTILE: 4)"}
 _FOLD_ASSUME = ["driver protocol copied from update_aggregate / execute_result: aggregator created lazily from the first arriving value, update() only for non-NULL values, NULL sets the cell only while is_null(), update_value() before a table is shown",
                 "the group table around the fold (BTreeMap<GroupKey, HashMap<usize,_>>, column-wise result assembly, HAVING) is outside the claim: symbolic execution of the engine does not conclude for two rows (DESIGN.md probe 14)"]
-_FOLD_OUT = ["one row per group / group order / no cell from another group (group table)", "COUNT, COUNT(DISTINCT), MIN, MAX, ARRAY_AGG, STRING_AGG (folded inline in the engine or through HashSet)",
+_FOLD_OUT = ["VARIANCE / STDDEV and PERCENTILE over 2+ values: their harnesses (c04_fold_variance_*, c04_fold_percentile_n2/n3, kept in /verif/kani/aggregate_execution.rs) do not conclude in 15 min even with the accumulators as the only assertion and std's sort stubbed",
+             "one row per group / group order / no cell from another group (group table)", "COUNT, COUNT(DISTINCT), MIN, MAX, ARRAY_AGG, STRING_AGG (folded inline in the engine or through HashSet)",
              "STDDEV's final sqrt (VARIANCE is checked; the flag only selects sqrt)", "groups of more than 3 rows", "HAVING, transform wrappers"]
 PROPS["C04"] = dict(
     harnesses=[H(n, "aggregate_execution", AG, shape=sh, tier=t, timeout=900, cost=120) for (n, sh, t) in _fold],
     functions=_FOLD_FUNCS, bounds=_FOLD_BOUNDS, stubs=["alloc::fmt::format -> empty string"], assumptions=_FOLD_ASSUME, outside=_FOLD_OUT)
 PROPS["C15"] = dict(
-    harnesses=[H(n, "aggregate_execution", AG, shape=sh + " (all arrival orders)", tier=t, timeout=900, cost=120) for (n, sh, t) in _fold
-               if n not in ("c04_fold_percentile_n1", "c04_fold_percentile_n2", "c04_fold_percentile_all_null")],
+    harnesses=[H(n, "aggregate_execution", AG, shape=sh + " (as given, reversed and rotated arrival order)", tier="quick" if n in _C15_QUICK else "thorough", timeout=900, cost=120) for (n, sh, t) in _fold
+               if n not in ("c04_fold_percentile_n1", "c04_fold_percentile_all_null")],
     functions=_FOLD_FUNCS, bounds=_FOLD_BOUNDS, stubs=["alloc::fmt::format -> empty string"], assumptions=_FOLD_ASSUME,
     outside=_FOLD_OUT + ["split / concatenation law and the union of group sets (group table)", "MIN / MAX / COUNT (inline in update_aggregate)"])
 
@@ -135,8 +144,9 @@ PROPS["C06"] = dict(
     bounds={"non-admitted row": "0..1 columns, all NULL", "engine state": "arbitrary LIMIT counter (u8), LIMIT absent or any u8, DISTINCT / OUTER flags symbolic", "step": "one line from an arbitrary state (inductive step: a line without trace leaves every later step's pre-state unchanged)"},
     stubs=_ENGINE_STUBS,
     assumptions=["one inductive step covers insertion/deletion of noise lines at any position: stated as an argument, not separately checked",
-                 "what extract() returns for concrete noise text (regex matching) is environment; the admission rule itself is decided by the c06_admission_* harnesses when registered"],
-    outside=["FileExecutor statistics counters, follow mode's screen clearing", "the joined-file loader (same execute path through SELECT *)"])
+                 "what extract() returns for concrete noise text (regex matching) is environment"],
+    outside=["the admission rule inside TableDefinition::extract (part 1 of the statement): its harnesses (c06_admission_*, kept in /verif/kani/data_model.rs) push / clear heap-held Vec<Value> rows and do not conclude in 25 min",
+             "FileExecutor statistics counters, follow mode's screen clearing", "the joined-file loader (same execute path through SELECT *)"])
 PROPS["C07"] = dict(
     harnesses=[H(n, "execution_engine", EE, shape=sh, timeout=600, env_stubbed=True, cost=60) for (n, sh) in [
         ("c07_limit_step_select", "SELECT LIMIT n>=1, <=1 row per line, rows with a non-NULL column"),
@@ -154,6 +164,7 @@ PROPS["C07"] = dict(
 
 # ------------------------------------------------------------------------------------------- C08
 PROPS["C08"] = dict(
+    claimed=False,
     harnesses=[H("c08_distinct_one_column", "execution", EX, shape="3 tuples x 1 column (NULL or INT 0..2)", timeout=900, cost=200),
                H("c08_distinct_two_columns", "execution", EX, shape="3 tuples x 2 columns (NULL or INT 0..2)", timeout=900, cost=400)],
     functions=["DistinctValues::new / add (src/execution/helpers.rs)", "derived Value / Vec<Value> equality and clone as used by the set"],
@@ -170,21 +181,23 @@ PROPS["C13"] = dict(
         ("c13_prec_postfix_mul", "every of :: [ . vs every of * /", 60), ("c13_prec_mul_add", "* / vs + -", 60), ("c13_prec_add_cmp", "+ - vs the 10 comparison tokens", 60),
         ("c13_prec_cmp_and", "comparison tokens vs AND", 60), ("c13_prec_and_or", "AND vs OR", 60), ("c13_prec_mul_cmp", "* / vs comparison tokens", 60),
         ("c13_prec_add_and", "+ - vs AND", 60), ("c13_prec_cmp_or", "comparison tokens vs OR", 60), ("c13_prec_same_level", "* = / and + = -", 60),
-        ("c13_climb_two_arith", "a o1 b o2 c, o1 o2 symbolic in + - * /", 300), ("c13_climb_low_high_low", "a o1 b o2 c o3 d, o1 o3 in + -, o2 in * /", 400)]],
+]],
     functions=["Parser::get_token_precedence, BinaryOperators::new (src/parsing/parser.rs, operator.rs)", "Parser::parse_expression -> parse_unary_operator / parse_binary_operator_rhs / parse_primary_expression on token sequences"],
-    bounds={"precedence levels": "all pairs of operator tokens of two different classes (class membership symbolic)", "chains": "2 and 3 binary arithmetic operators over single-letter identifiers; token sequence <= 8 tokens"},
+    bounds={"precedence levels": "all pairs of operator tokens of two different classes (class membership symbolic)", "chains": "none: the precedence-climbing harnesses (c13_climb_*, kept in /verif/kani/parser.rs) explore the recursive-descent parser to the unwinding bound on every token and do not conclude in 10 min"},
     stubs=["std HashMap/HashSet of parsing/operator.rs -> /verif/kani/shim.rs", "alloc::fmt::format -> empty string"],
     assumptions=["operators inside one class (e.g. = vs <) are not ordered by the check: the statement names them as one level"],
-    outside=["the tokenizer (=- and -- fusion), NOT / unary minus placement, IN with a one-element list, parenthesised operands: token-level harnesses for them are not built",
-             "chains mixing comparison / AND / OR / cast / subscript operators in the climbing harness"])
+    outside=["the climbing algorithm itself (associativity, `+ 1` in the recursive call): decided only for the precedence levels it consults",
+             "the tokenizer (=- and -- fusion), NOT / unary minus placement, IN with a one-element list, parenthesised operands"])
 
 # ------------------------------------------------------------------------------------- C01 / C02
 DM = "data_model::verif_kani"
 _DM_STUBS = ["ParsingInput built directly by the harness = the environment's answer: pattern matched or not, 1..3 split fields with symbolic bytes, or a constructed JSON document (regex engine and serde_json parser are environment)",
              "std HashMap of data_model.rs -> /verif/kani/shim.rs", "regex::Regex::new -> Err (never reached: tables have no patterns)", "chrono Local time-zone lookups -> arbitrary answers", "alloc::fmt::format -> empty string"]
 PROPS["C01"] = dict(
+    claimed=False,
     harnesses=[H(n, "data_model", DM, shape=sh, timeout=900, cost=c) for (n, sh, c) in [
-        ("c01_split_int_default", "INT column on split field 1, DEFAULT present or not, pattern/field present or not", 300),
+        ("c01_split_int_default", "INT column with DEFAULT on split field 1, pattern/field present or not", 300),
+        ("c01_split_int_nodefault", "INT column without DEFAULT on split field 1, pattern/field present or not", 300),
         ("c01_split_boolean", "BOOLEAN column on split field 1", 200),
         ("c01_split_own_field", "INT column on split field g (g symbolic in 1..2) of a 3-entry split", 300),
         ("c01_split_array", "INT[] column from fields 1 and 2", 400)]],
@@ -194,9 +207,11 @@ PROPS["C01"] = dict(
     assumptions=["the Captures arm of extract_using_regex is a textual twin of the Split arm and is not executed (regex::Captures has no public constructor)"],
     outside=["the regex engine (leftmost match, group numbering, split)", "REAL / TIMESTAMP / INTERVAL literal parsing, TRIM, timestamp assembly from parts (see C09 for create_timestamp)", "CREATE TABLE parsing", "fields longer than 2 bytes"])
 PROPS["C02"] = dict(
+    claimed=False,
     harnesses=[H(n, "data_model", DM, shape=sh, timeout=900, cost=c) for (n, sh, c) in [
-        ("c02_json_index_int", "{[i]} => INT on [leaf, \"\"], leaf any JSON scalar", 400), ("c02_json_index_real", "{[i]} => REAL", 400),
-        ("c02_json_index_boolean", "{[i]} => BOOLEAN", 300), ("c02_json_index_text", "{[i]} => TEXT", 300),
+        ("c02_json_index_int", "{[i]} => INT on [leaf, \"\"], leaf any JSON scalar", 400), ("c02_json_index_int_default", "{[i]} => INT DEFAULT 7", 400),
+        ("c02_json_index_real", "{[i]} => REAL", 400), ("c02_json_index_real_default", "{[i]} => REAL DEFAULT 7.0", 400),
+        ("c02_json_index_boolean", "{[i]} => BOOLEAN", 300), ("c02_json_index_text", "{[i]} => TEXT", 300), ("c02_json_index_text_default", "{[i]} => TEXT DEFAULT ''", 300),
         ("c02_json_nested_path", "{[i][j]} => INT on [[leaf, true], 5] via JsonAccess::from_linear", 400)]],
     functions=["JsonAccess::get_value (Array steps, recursion), JsonAccess::from_linear, ColumnParsing::extract Json branch (src/data_model.rs)", "ValueType::convert_from_json (src/model.rs)"],
     bounds={"document": "JSON arrays of depth <= 2, <= 2 elements; leaf = null | bool | any i64 | any u64 | any finite f64 | string", "index": "0..2 per step", "DEFAULT": "present or not"},
@@ -204,14 +219,15 @@ PROPS["C02"] = dict(
     assumptions=[],
     outside=["serde_json::from_str (the JSON parser: duplicate keys, numbers beyond f64, invalid JSON)", "object field steps: serde_json's Map is an IndexMap over hashbrown, which cannot be shimmed",
              "CONVERT (string -> typed literal parsing)", "independence from regex columns of the same table"])
-PROPS["C06"]["harnesses"].append(H("c06_admission_two_columns", "data_model", DM, shape="admission rule: two INT columns, nullable/NOT NULL/DEFAULT symbolic", timeout=900, cost=400, tier="thorough"))
-PROPS["C06"]["functions"].append("TableDefinition::extract (NOT NULL cut), Row::any_result (src/data_model.rs)")
 
 # ------------------------------------------------------------------------------- C10 / C12 / C19
 _IO_STUBS = ["std::io::BufReader -> /verif/kani/shim.rs io::BufReader: a window on a symbolic file (content bytes, read position, visible length that each read may advance, read budget); read_line implements the documented BufRead::read_line contract",
              "alloc::fmt::format -> empty string"]
 PROPS["C10"] = dict(
-    harnesses=[H("c10_follow_len2", "helpers", "helpers::verif_kani", shape="file of 2 bytes over {a,b,\\n}, arbitrary append/poll interleaving, <= 4 reads", timeout=900, cost=300),
+    claimed=False,
+    harnesses=[H("c10_follow_schedule_len2", "helpers", "helpers::verif_kani", shape="content a\\n fixed, every append/poll schedule", timeout=900, cost=300),
+               H("c10_follow_schedule_len4", "helpers", "helpers::verif_kani", shape="content a\\nb\\n fixed, every append/poll schedule", timeout=1500, cost=600),
+               H("c10_follow_len2", "helpers", "helpers::verif_kani", shape="file of 2 bytes over {a,b,\\n}, arbitrary append/poll interleaving, <= 4 reads", timeout=900, cost=300),
                H("c10_follow_len3", "helpers", "helpers::verif_kani", shape="file of 3 bytes, <= 5 reads", timeout=2400, cost=1200, tier="thorough")],
     functions=["FollowFileIterator::new / next (src/helpers.rs)"],
     bounds={"content": "2 (quick) or 3 (thorough) bytes over {a, b, newline} (b only in the first position)", "schedule": "the visible length advances by any amount before every read (every chunking of the appends x every placement of polls)",
@@ -222,13 +238,17 @@ PROPS["C10"] = dict(
 _EXEC_STUBS = _IO_STUBS + ["ExecutionEngine::execute -> logs the line it is given (update calls) / notes the final-result call, emits nothing",
                            "the user's interrupt: the shared running flag is cleared inside the engine stub once k lines have been consumed (k symbolic, k = 0: before the run)", "regex::Regex::new -> Err (unreached)"]
 PROPS["C12"] = dict(
+    claimed=False,
     harnesses=[H("c12_two_files_every_line_once", "executor", "executor::verif_kani", shape="two files of <= 3 and <= 2 bytes over {a, \\n, \\r}", timeout=1500, cost=600, env_stubbed=True)],
     functions=["FileExecutor::execute (src/executor.rs): reader loop, statistics", "std::io::Lines::next (real: newline / CRLF stripping) over the shim's read_line"],
     bounds={"files": "2, of <= 3 and <= 2 bytes", "alphabet": "a, newline, carriage return (first two positions)"},
     stubs=_EXEC_STUBS, assumptions=["the engine below the executor is a logging stub"],
     outside=["lines that are not valid UTF-8 (the Err from lines() leaves the inner loop silently: a known weakness, not exercised)", "JoinedTableData::execute's twin loop, main's file list", "more than two files / longer files"])
 PROPS["C19"] = dict(
-    harnesses=[H("c19_interrupt_select", "executor", "executor::verif_kani", shape="plain query, 2 files, interrupt after k lines (k = 0..6)", timeout=1500, cost=600, env_stubbed=True),
+    claimed=False,
+    harnesses=[H("c19_interrupt_point_select", "executor", "executor::verif_kani", shape="plain query, files a\\na and a\\n fixed, interrupt after k lines (k = 0..6 symbolic)", timeout=1500, cost=600, env_stubbed=True),
+               H("c19_interrupt_point_aggregate", "executor", "executor::verif_kani", shape="aggregate query, fixed files, interrupt after k lines", timeout=1500, cost=600, env_stubbed=True),
+               H("c19_interrupt_select", "executor", "executor::verif_kani", shape="plain query, 2 files, interrupt after k lines (k = 0..6)", timeout=1500, cost=600, env_stubbed=True),
                H("c19_interrupt_aggregate", "executor", "executor::verif_kani", shape="aggregate query, 2 files, interrupt after k lines", timeout=1500, cost=600, env_stubbed=True)],
     functions=["FileExecutor::execute (src/executor.rs): running check per line, final aggregate result after the loops"],
     bounds={"files": "2, of <= 3 and <= 2 bytes over {a, newline}", "interrupt point": "after any number k of consumed lines, or before the run"},
@@ -245,6 +265,7 @@ PROPS["C09"] = dict(
                H("c03_arith_div_int_int", "execution", EX, shape="evaluate: INT / INT (divisor -16..16: zero divisor, MIN / -1)", timeout=900, cost=400, tier="thorough"),
                H("c03_unary_neg_int", "execution", EX, shape="evaluate: -INT", timeout=900, cost=30),
                H("c03_fn_abs_int", "execution", EX, shape="evaluate: abs(INT)", timeout=900, cost=40),
+               H("c03_subscript_len1", "execution", EX, shape="evaluate: a[i] for every i64 subscript, array of 1 element", timeout=900, cost=350),
                H("c09_fold_sum_int_overflow", "aggregate_execution", AG, shape="SUM over two full-range INTs", timeout=900, cost=120),
                H("c09_fold_avg_int_overflow", "aggregate_execution", AG, shape="AVG over two full-range INTs", timeout=900, cost=120)],
     functions=["create_timestamp, ValueType::parse (Timestamp arm), Value::json_value (src/model.rs)", "ExpressionExecutionEngine::evaluate integer kernels (src/execution/expression_execution.rs)",
@@ -256,11 +277,10 @@ PROPS["C09"] = dict(
              "the group table (accept_group indexing, result_rows_by_column[0])", "the CLI process"])
 PROPS["C17"] = dict(
     harnesses=[H("c17_json_value_scalars", "c09", ROOT + "::c09", shape="INT / BOOLEAN / NULL -> JSON", timeout=600, cost=60),
-               H("c09_json_value_real_total", "c09", ROOT + "::c09", shape="finite REAL -> JSON number, exact", timeout=600, cost=60),
-               H("c17_print_text_records", "executor", "executor::verif_kani", shape="text format: 0..2 rows x 1..2 columns, first column `input` or not, single_result symbolic", timeout=1500, cost=600, env_stubbed=True),
-               H("c17_print_csv_header_once", "executor", "executor::verif_kani", shape="CSV: two print calls of 1..2 and 0..2 rows", timeout=1500, cost=600, env_stubbed=True)],
-    functions=["Value::json_value (src/model.rs)", "OutputPrinter::print (src/executor.rs) with the real format!/join for names and delimiters"],
-    bounds={"rows": "0..2 per print call, 2 print calls (CSV)", "columns": "1..2, names `input` / x / y", "values": "INT / NULL (their text is cut to empty: records are identified by length)"},
-    stubs=["<Value as Display>::fmt -> writes nothing (the characters of values are outside the claim)"],
+               H("c09_json_value_real_total", "c09", ROOT + "::c09", shape="finite REAL -> JSON number, exact", timeout=600, cost=60)],
+    functions=["Value::json_value (src/model.rs)"],
+    bounds={"values": "every i64, every f64 (finite ones must be recovered exactly), both booleans, NULL"},
+    stubs=["alloc::fmt::format -> empty string (unreached)"],
     assumptions=[],
-    outside=["the characters of text / CSV fields, JSON escaping and key order (core::fmt number formatting, serde_json's writer, IndexMap)", "arrays, timestamps, intervals as JSON", "more than 2 rows / columns"])
+    outside=["the record skeleton of OutputPrinter::print (one println per row, CSV header once, lone `input` column): its harnesses (c17_print_*, kept in /verif/kani/executor.rs) run the real format!/join machinery and do not conclude in 25 min",
+             "the characters of text / CSV fields, JSON escaping and key order (core::fmt number formatting, serde_json's writer, IndexMap)", "arrays, timestamps, intervals as JSON"])
